@@ -35,6 +35,7 @@ MODELLED = {
     "murmur": "twmb/murmur3 vs NutsModel/C19/Murmur.lean (tie of the concrete hash instance)",
     "slc.update": "vcr/revocation/statuslist2021_verifier.go update + validate (statuslist_total); Verify's per-entry loop is in the model (statuslist_total) but only sampled on the real code",
     "didkey": "vdr/didkey/resolver.go Resolve: checks between the DID string and the library calls (didkey_total)",
+    "httpcache.seq": "http/client/caching.go CachingRoundTripper.RoundTrip → responseCache.get/removeExpiredEntries/insert/pop on sequences of GET round trips (httpcache_make_room_terminates — no fuel —, httpcache_roundtrip_total, httpcache_size_invariant); cachecontrol's verdict and the clock are data",
     "didweb.pct": "vdr/didweb/util.go percentDecodeString + percentDecodeChar + isHex + unhex, output compared byte for byte (didweb_percent_decode_total, _length, _only_allowed)",
     "didweb.unescape": "net/url PathUnescape vs NutsModel/C19/DidWeb.lean pathUnescape (tie of the re-implemented library function)",
     "didweb.url": "vdr/didweb/util.go DIDToURL on any DID value (didweb_did_to_url_total, didweb_did_to_url_ok); url.Parse / net.ParseIP are data",
@@ -52,6 +53,7 @@ REQUIRED = [
     "iblt_bucket_indices_total", "iblt_bucket_indices_exact", "iblt_insert_delete_total", "iblt_decode_terminates", "iblt_decode_fuel_irrelevant", "iblt_decode_total",
     "iblt_handle_set_total", "iblt_zero_buckets_never_divide", "murmur_chain_short_cycles", "iblt_unbounded_chain_hangs",
     "iblt_small_table_hangs_unfixed", "callback_total_in_handler", "callback_empty_envelope_needs_guard", "statuslist_total", "statuslist_guards_needed", "didkey_total", "callback_standalone_partial", "panic_sites_accounted",
+    "fact_httpcache", "httpcache_make_room_terminates", "httpcache_roundtrip_total", "httpcache_unguarded_loop_spins", "httpcache_size_invariant",
     "fact_doc_unmarshal_guarded", "ambassador_callback_total", "ambassador_callback_rejects", "ambassador_null_guard_needed",
     "fact_didweb", "didweb_percent_decode_total", "didweb_percent_decode_guard_needed", "didweb_percent_decode_length", "didweb_percent_decode_only_allowed",
     "didweb_path_unescape_plain", "didweb_did_to_url_total", "didweb_did_to_url_ok", "didweb_resolve_total", "didweb_resolve_ok", "didweb_null_guard_needed",
@@ -73,6 +75,8 @@ def _cls(line):
         out.add("timeout")
     if "STATE-CHANGED" in line:
         out.add("state-changed-on-error")
+    if "INVARIANT-BROKEN" in line:
+        out.add("invariant-broken")
     return out
 
 
